@@ -4,7 +4,7 @@ import asyncio
 import random
 
 from contracts.ipsecure_common import CRYPTO_STUBS, decrypt_frame_contract, recv_super, send_super
-from pyvc.api import Bool, Bytes, Choice, Const, EnumOf, Int, Obj, TupleOf, assume, ghost, lemma, nondet
+from pyvc.api import Bool, Bytes, Choice, Const, EnumOf, Int, Obj, TupleOf, assume, ghost, lemma, nondet, run
 from xknx.exceptions import IPSecureError, KNXSecureValidationError
 from xknx.io.const import XKNX_SERIAL_NUMBER
 from xknx.io.ip_secure import SecureGroup, SecureSequenceTimer, _IPSecureTransportLayer
@@ -267,3 +267,133 @@ ASSUMPTIONS = [
     "AES primitives uninterpreted (arbitrary octets); KNXIPFrame.from_knx/to_knx per their own contracts (C20/C21)",
     "loop.time() is monotonic; call_later scheduling (reschedule) is a recording stub: notify delays are not verified",
 ]
+
+
+# ------------------------------------------------------------------ what we send ourselves: timer notifies
+
+
+def _rec_transport_send(frame, addr):
+    ghost("notifies").append(frame)
+
+
+NOTIFY_TIMER = Obj(
+    SecureSequenceTimer,
+    _backbone_key=B16,
+    _clock_difference=Int(0, 1 << 46),
+    _expected_notify_handler=None,
+    _transport_send=Const(_rec_transport_send),
+    sched_update=Bool(),
+    timekeeper=Bool(),
+    timer_authenticated=Bool(),
+    latency_tolerance_ms=Int(1, 100000),
+    sync_latency_tolerance_ms=Int(0, 10000),
+)
+
+
+@lemma("C30", params=dict(t=NOTIFY_TIMER, mono=MONO, tag=Choice(None, Bytes(length=2)), rtag=Bytes(length=2), mac_cbc=B16, mac=B16), stubs=TIMER_STUBS + [(random, "randbytes", _randbytes)])
+def own_timer_notifies_carry_a_mac_over_the_same_blocks(t, mono, tag, rtag, mac_cbc, mac):
+    """send_timer_notify: one TimerNotify carrying the current timer value, our serial number, the given
+    (or a random) message tag and a MAC computed over exactly the blocks verify_timer_notify_mac uses on
+    the receiving side (B0 = timer | serial | tag | 00 00, Ctr0 = ... | ff 00, header 06 10 09 55 00 24)
+    - so notifies we send verify at other devices, and ours at us."""
+    assume(mono + t._clock_difference <= MAX48)
+    ghost("mono").append(mono)
+    ghost("rand").append(rtag)
+    ghost("cbc_out").append(mac_cbc)
+    ghost("enc_out").append((b"", mac))
+    if tag is None:
+        t.send_timer_notify()
+    else:
+        t.send_timer_notify(message_tag=tag)
+    n = ghost("notifies")
+    assert len(n) == 1 and isinstance(n[0].body, TimerNotify)
+    b = n[0].body
+    used = tag if tag else rtag
+    assert b.timer_value == mono + t._clock_difference and b.serial_number == XKNX_SERIAL_NUMBER and b.message_tag == used
+    assert b.message_authentication_code == mac
+    tb = b.timer_value.to_bytes(6, "big")
+    c = ghost("crypto")
+    assert c[0] == ("cbc", t._backbone_key, bytes.fromhex("06 10 09 55 00 24"), b"", tb + XKNX_SERIAL_NUMBER + used + b"\x00\x00")
+    assert c[1] == ("enc", t._backbone_key, tb + XKNX_SERIAL_NUMBER + used + b"\xff\x00", mac_cbc, b"")
+
+
+class SyncFut:
+    """The synchronisation future: awaiting it ends with the timer value handle_timer_notify completed it
+    with (only after a verified TimerNotify - lemma above), with the timeout, or with cancellation (stop)."""
+
+    def __init__(self):
+        self.is_done, self.value = False, None
+
+    def done(self):
+        return self.is_done
+
+    def set_result(self, v):
+        if self.is_done:
+            raise asyncio.InvalidStateError("invalid state")
+        self.is_done, self.value = True, v
+
+    def cancel(self):
+        self.is_done = True
+
+    async def __pyvc_await__(self):
+        k = ghost("sync_outcome")[-1]
+        if k == "answered":
+            return ghost("sync_value")[-1]
+        if k == "timeout":
+            raise TimeoutError()
+        raise asyncio.CancelledError()
+
+    def __await__(self):
+        return self.__pyvc_await__().__await__()
+
+
+class SyncLoop:
+    def create_future(self):
+        f = SyncFut()
+        ghost("futures").append(f)
+        return f
+
+
+def _rec_send_timer_notify(self, message_tag=None, serial_number=XKNX_SERIAL_NUMBER):
+    ghost("notify_sent").append((message_tag, self._expected_notify_handler))
+
+
+from contracts.world import FakeTimeout  # noqa: E402
+
+SYNC_TIMER = Obj(
+    SecureSequenceTimer,
+    _backbone_key=B16,
+    _clock_difference=Int(-(1 << 40), 1 << 46),
+    _expected_notify_handler=None,
+    _loop=Const(SyncLoop()),
+    sched_update=Bool(),
+    timekeeper=Const(False),
+    timer_authenticated=Const(False),
+    latency_tolerance_ms=Int(1, 100000),
+    sync_latency_tolerance_ms=Int(0, 10000),
+    max_delay_time_follower_update_notify=1.3,
+)
+
+
+@lemma("C30", params=dict(t=SYNC_TIMER, mono=MONO, outcome=Choice("answered", "timeout", "cancelled"), value=Int(0, MAX48), rtag=Bytes(length=2)), stubs=TIMER_STUBS + [(random, "randbytes", _randbytes), (asyncio, "timeout", FakeTimeout), (SecureSequenceTimer, "send_timer_notify", _rec_send_timer_notify)], float_mode="real")
+def synchronisation_takes_only_the_verified_answer(t, mono, outcome, value, rtag):
+    """synchronize(): one TimerNotify with a fresh random tag goes out while exactly that tag is registered
+    as expected; if the answer arrives (a verified notify carrying our serial and that tag - see above) the
+    timer is set to its value; on timeout we become time keeper with our own timer; only then wrappers are
+    accepted (timer_authenticated) and the periodic notify is scheduled; a cancelled synchronisation
+    (stop) authenticates nothing; the expectation is always cleared."""
+    ghost("mono").append(mono)
+    ghost("rand").append(rtag)
+    ghost("sync_outcome").append(outcome)
+    ghost("sync_value").append(value)
+    cd = t._clock_difference
+    run(t.synchronize())
+    sent = ghost("notify_sent")
+    assert len(sent) == 1 and sent[0][0] == rtag and sent[0][1] is not None and sent[0][1][0] == rtag
+    assert t._expected_notify_handler is None
+    if outcome == "answered":
+        assert timer_value(t, mono) == value and t.timer_authenticated and not t.timekeeper and ghost("resched") == [None]
+    elif outcome == "timeout":
+        assert t._clock_difference == cd and t.timer_authenticated and t.timekeeper and ghost("resched") == [None]
+    else:
+        assert t._clock_difference == cd and not t.timer_authenticated and ghost("resched") == []
